@@ -173,6 +173,8 @@ def check_float(v):
     # only quarters with small magnitude: their shortest decimal form is unambiguous
     if v != v or v in (float("inf"), float("-inf")):
         raise Decline("non-finite float")
+    if v == 0 and str(v).startswith("-"):
+        raise Decline("negative zero (float formatting is not C14's)")
     if abs(v) > 1e9 or (v * 4) != int(v * 4):
         raise Decline("float outside the exactly-representable quarter grid (float formatting is not C14's)")
     return v
@@ -1924,9 +1926,9 @@ def bi_leafcount(v):
 
 def bi_haskey(m, k):
     if is_map(m):
-        if not (is_int(k) or is_str(k)):
-            raise Decline("haskey with odd key")
-        return mapkey(k) in m if not (is_str(k) and k == "") else False
+        if not (is_int(k) or is_str(k)) or k == "":
+            raise Decline("haskey with a key that is neither int nor non-empty string")
+        return mapkey(k) in m
     if is_arr(m):
         if not is_int(k):
             raise Decline("haskey on array with non-int")
